@@ -1706,6 +1706,13 @@ int32 matrixCreateSessionTicket(ssl_t *ssl, unsigned char *out, int32 *outLen)
     psLockMutex(&g_sessTicketLock);
     /* Ticket itself */
     keys = ssl->keys->sessTickets;
+    if (keys == NULL)
+    {
+        /* The last ticket key was deleted after the ClientHello was parsed */
+        psUnlockMutex(&g_sessTicketLock);
+        psTraceErrr("No session ticket keys to create a ticket with\n");
+        return PS_FAILURE;
+    }
     /* name */
     Memcpy(c, keys->name, 16);
     c += 16;
